@@ -344,13 +344,45 @@ def rule_Q3(ctx) -> None:
         else:
             ctx.refuted("Q3", f"{q}:datetime/timedelta-dispatch", str({k: sorted(v) for k, v in conv.items()}), mod.loc(fn),
                         f"datetime/timedelta values are converted by {conv}; expected _Timestamp.from_datetime / _Duration.from_timedelta before any wrapper handling")
-    m = model(ctx)
-    kinds = {d[2] for d in m.dec[("message", 2)] if d[1] == "submessage-conv"}
-    if kinds == {"to_datetime", "to_timedelta"}:
-        ctx.proved("Q3", "_postprocess_single:converts-back", mod.loc(mod.func("Message._postprocess_single")))
+    # the decoder, evaluated per class the field is annotated with: the class looked up for the field is bound to datetime,
+    # to timedelta and to an ordinary message class in turn
+    from ..src import SymName
+    from ..sym import walk
+    post = mod.func("Message._postprocess_single")
+    pp = [a.arg for a in post.args.args]
+    base = {N(pp[1]): 2, A(N(pp[2]), "proto_type"): "message"}
+    probe = Interp(mod, bindings=dict(base)).run(post)
+    lookups = {t for p in probe for src in (list(p.valuation) + [e.data for e in p.events if e.kind in ("call", "return")] + ([p.value] if p.value is not None else []))
+               for t in walk(src) if isinstance(t, tuple) and t and t[0] == "sub" and "cls_by_field" in show(t[1])}
+    loc = mod.loc(post)
+    if len(lookups) != 1:
+        ctx.inconclusive("Q3", "_postprocess_single:converts-back", f"the class of the field is looked up through {len(lookups)} different terms", loc)
+        return
+    T = next(iter(lookups))
+    want = {"datetime": ("to_datetime", "_Timestamp"), "timedelta": ("to_timedelta", "_Duration")}
+    got = {}
+    for cname, (conv, carrier) in want.items():
+        b = dict(base)
+        b[T] = SymName(cname)
+        paths = Interp(mod, bindings=b).run(post)
+        ctx.count(len(paths))
+        res = set()
+        for p in paths:
+            if p.outcome != "return" or p.value is None:
+                res.add(f"<{p.outcome}>")
+                continue
+            v = p.value
+            if v[0] == "call" and v[1][0] == "a" and v[1][2] == conv and f"{carrier}()" in show(v[1][1]) and ".parse(" in show(v[1][1]):
+                res.add(conv)
+            else:
+                res.add(show(v)[:80])
+        got[cname] = res
+    if all(got[c] == {want[c][0]} for c in want):
+        ctx.proved("Q3", "_postprocess_single:converts-back", loc, "; ".join(f"{c}->{sorted(r)}" for c, r in got.items()))
     else:
-        ctx.refuted("Q3", "_postprocess_single:converts-back", ",".join(sorted(map(str, kinds))), mod.loc(mod.func("Message._postprocess_single")),
-                    f"decoded Timestamp/Duration fields are converted by {sorted(map(str, kinds))}; expected to_datetime and to_timedelta")
+        bad = next(c for c in want if got[c] != {want[c][0]})
+        ctx.refuted("Q3", "_postprocess_single:converts-back", f"{bad}:{','.join(sorted(got[bad]))}"[:120], loc,
+                    f"a decoded field annotated {bad} yields {sorted(got[bad])}; expected {want[bad][1]}().parse(value).{want[bad][0]}()")
 
 
 def rule_Q4(ctx) -> None:
